@@ -468,13 +468,24 @@ func runDKG(t *testing.T, rc *RunCtx) {
 	default:
 		if out.State != pb.ResponseState_SUCCEEDED {
 			// C12 says what must hold when a generation reports success; it does not promise that a valid
-			// request succeeds.  A failing fault-free generation makes this run vacuous: inconclusive, not a violation.
+			// request succeeds.  A failing fault-free generation makes this run vacuous: inconclusive, not a violation
+			// - after the one that ran at the same time and did report success has been checked.
+			if outB != nil && outB.Done && outB.State == pb.ResponseState_SUCCEEDED {
+				s.Direct(func() { c.checkGenerated("C12", pathB, uint32(th), parts, outB, s.Step) })
+				if len(rc.Viol) > 0 {
+					return
+				}
+			}
 			rc.Violate("HARNESS", "vacuous-fault-free-generation-failed", fmt.Sprintf("fault-free generation with n=%d t=%d ids=%v failed: %s", n, th, ids, out.Message), s.Step)
 			return
 		}
 		rc.Stats.Inc("successful_generations", 1)
 		if outB != nil {
 			if !outB.Done || outB.State != pb.ResponseState_SUCCEEDED {
+				s.Direct(func() { c.checkGenerated("C12", path, uint32(th), parts, out, s.Step) })
+				if len(rc.Viol) > 0 {
+					return
+				}
 				rc.Violate("HARNESS", "vacuous-fault-free-generation-failed", fmt.Sprintf("a generation running concurrently with another one failed: %s", outB.Message), s.Step)
 				return
 			}
